@@ -33,6 +33,9 @@ fn families() -> Vec<(String, Vec<RSpec>)> {
         let mut a = mk("A", CondK::True, ActK::IncVar(0), nl, 0);
         a.act2 = ActK::IncVar(1);
         v.push((format!("two_always_true{}", if nl { "_no_loop" } else { "" }), vec![a, mk("B", CondK::True, ActK::IncVar(2), false, -1)]));
+        // rules without any action: a firing is a firing even if it changes nothing
+        v.push((format!("actionless_always_true{}", if nl { "_no_loop" } else { "" }), vec![mk("Quiet", CondK::True, ActK::Silent, nl, 0)]));
+        v.push((format!("actionless_and_counter{}", if nl { "_no_loop" } else { "" }), vec![mk("Inc", CondK::VarLt(0, 3), ActK::IncVar(0), nl, 5), mk("Quiet", CondK::VarEq(0, 3), ActK::Silent, nl, 0)]));
     }
     v
 }
@@ -79,8 +82,12 @@ fn run_case(k: usize) -> serde_json::Value {
     if res.cycle_count > mc {
         return bad("cycle_count_exceeds_max_cycles", format!("cycle_count {} > max_cycles {}", res.cycle_count, mc));
     }
-    if res.rules_fired != seq.len() || (cb && cb_count != seq.len()) {
+    let silent = rules.iter().any(|r| r.act == ActK::Silent);
+    if !silent && (res.rules_fired != seq.len() || (cb && cb_count != seq.len())) {
         return bad("fired_count_differs_from_firings", format!("rules_fired {} / callback count {} / firings observed {}", res.rules_fired, cb_count, seq.len()));
+    }
+    if cb && cb_count != res.rules_fired {
+        return bad("fired_count_differs_from_firings", format!("rules_fired {} / callback count {}", res.rules_fired, cb_count));
     }
     if res.cycle_count != exp.cycles {
         let why = if res.cycle_count < exp.cycles { "stopped although the last pass fired a rule (or skipped a pass)" } else { "kept going after a pass that fired nothing" };
@@ -88,6 +95,9 @@ fn run_case(k: usize) -> serde_json::Value {
     }
     if seq != exp.seq {
         return bad("firing_sequence_differs", format!("fired {:?}, the documented pass loop gives {:?}", seq, exp.seq));
+    }
+    if res.rules_fired != exp.fired {
+        return bad("fired_count_differs_from_firings", format!("rules_fired {} but the pass loop fires {} rules (firings per pass {:?})", res.rules_fired, exp.fired, exp.passes));
     }
     if res.cycle_count < mc {
         // fixpoint on the final facts
@@ -159,6 +169,101 @@ fn run_families(opts: &Opts) -> Report {
     rep
 }
 
+/// A call that ends with an error from an action must not change what the next call on the same engine does.
+fn failed_call_cases() -> Vec<(String, Vec<RSpec>, usize, bool, bool)> {
+    let mut out = vec![];
+    let mk = |name: &str, cond: CondK, act: ActK, sal: i32, ag: Option<&'static str>| {
+        let mut r = RSpec::plain(name);
+        r.cond = cond;
+        r.act = act;
+        r.salience = sal;
+        r.actgrp = ag;
+        r
+    };
+    for (vname, ag, with_b) in [("plain", None, false), ("activation_group", Some("g"), false), ("activation_group_of_two", Some("g"), true), ("plain_with_second_rule", None, true)] {
+        for fsal in [5, 15] {
+            for mc in [1usize, 2, 3, 5, 8] {
+                for cb in [false, true] {
+                    for grl in [false, true] {
+                        let mut rules = vec![mk("A", CondK::VarLt(0, 3), ActK::IncVar(0), 10, ag)];
+                        if with_b {
+                            rules.push(mk("B", CondK::VarLt(2, 2), ActK::IncVar(2), 8, ag));
+                        }
+                        rules.push(mk("F", CondK::VarEq(1, 1), ActK::Fail, fsal, None));
+                        out.push((format!("{}_failing_rule_salience_{}", vname, fsal), rules, mc, cb, grl));
+                    }
+                }
+            }
+        }
+    }
+    out
+}
+
+fn run_failed_call_case(name: &str, rules: &[RSpec], mc: usize, cb: bool, grl: bool) -> Result<bool, (String, String)> {
+    let mut eng = c02::build_engine(rules, grl, mc).map_err(|e| ("rule_set_rejected".to_string(), e))?;
+    let facts = c02::mk_facts();
+    facts.set("v1", rust_rule_engine::types::Value::Integer(1));
+    let first = if cb { eng.execute_with_callback(&facts, |_n, _f| {}) } else { eng.execute(&facts) };
+    let failed = first.is_err();
+    // disarm the failing rule; everything else stays as the first call left it
+    facts.set("v1", rust_rule_engine::types::Value::Integer(0));
+    let seen = c02::read_seq(&facts).len();
+    let mut vars = Vars::default();
+    for k in [0usize, 1, 2] {
+        if let Some(rust_rule_engine::types::Value::Integer(i)) = facts.get(&format!("v{}", k)) {
+            vars.v.insert(k, i);
+        }
+    }
+    let mut em = EModel::default();
+    let exp = c02::ref_forward(rules, &mut em, &vars, "MAIN", chrono::Utc::now(), mc);
+    let mut cbn = 0usize;
+    let res = if cb { eng.execute_with_callback(&facts, |_n, _f| cbn += 1) } else { eng.execute(&facts) };
+    let res = res.map_err(|e| ("execute_failed".to_string(), format!("second call: {:?}", e)))?;
+    let seq: Vec<String> = c02::read_seq(&facts)[seen..].to_vec();
+    let _ = name;
+    if res.cycle_count > mc {
+        return Err(("cycle_count_exceeds_max_cycles".into(), format!("cycle_count {} > max_cycles {}", res.cycle_count, mc)));
+    }
+    if res.rules_fired != seq.len() || (cb && cbn != seq.len()) {
+        return Err(("fired_count_differs_from_firings".into(), format!("rules_fired {} / callback {} / firings {:?}", res.rules_fired, cbn, seq)));
+    }
+    if res.cycle_count != exp.cycles || seq != exp.seq {
+        let class = if res.cycle_count < exp.cycles { "stopped_before_fixpoint" } else if seq != exp.seq { "firing_sequence_differs" } else { "cycle_count_differs" };
+        return Err((class.into(), format!("call after a call that {}: {} passes firing {:?}; the pass loop on the same facts makes {} passes firing {:?}", if failed { "returned an error from an action" } else { "succeeded" }, res.cycle_count, seq, exp.cycles, exp.seq)));
+    }
+    Ok(failed)
+}
+
+fn run_failed_calls(_opts: &Opts) -> Report {
+    let t0 = Instant::now();
+    let mut rep = Report::new("call_after_failed_call");
+    let cases = failed_call_cases();
+    let mut nt = BTreeSet::new();
+    let mut failed_first = 0u64;
+    for (i, (name, rules, mc, cb, grl)) in cases.iter().enumerate() {
+        rep.count("evaluations", 1);
+        let case = json!({"sub": "call_after_failed_call", "case": i, "variant": name, "rules": rules.iter().map(|r| r.grl().unwrap()).collect::<Vec<_>>(), "max_cycles": mc, "entry_point": if *cb { "execute_with_callback" } else { "execute" }, "via_grl": grl});
+        let r = std::panic::catch_unwind(|| run_failed_call_case(name, rules, *mc, *cb, *grl));
+        match r {
+            Err(_) => rep.violation(Violation { class: "execute_panicked".into(), detail: crate::explore::take_panic(), tags: vec![], case }),
+            Ok(Err((c, d))) => rep.violation(Violation { class: c, detail: d, tags: vec!["previous_call_failed".into()], case }),
+            Ok(Ok(f)) => {
+                failed_first += f as u64;
+                nt.insert(hstr(&format!("{}|{}", name, mc)));
+            }
+        }
+    }
+    rep.count("nontrivial", nt.len() as u64);
+    rep.count("first_call_returned_error", failed_first);
+    if failed_first == 0 {
+        rep.notes.push("VACUITY: no first call failed".into());
+    }
+    rep.sample(json!({"rules": cases[0].1.iter().map(|r| r.grl().unwrap()).collect::<Vec<_>>(), "first_call": "v1 = 1: rule F's action fails", "second_call": "v1 = 0"}));
+    rep.bound = format!("{} cases: rule A (plain / in an activation group / with a second rule) and a rule whose action returns an error (before or after A in salience) x max_cycles 1,2,3,5,8 x {{execute, execute_with_callback}} x {{builder, GRL}}: first call fails, second call on the same engine is compared with the pass loop", cases.len());
+    rep.wall_s = t0.elapsed().as_secs_f64();
+    rep
+}
+
 pub fn run(opts: &Opts) -> Vec<Report> {
     let mut out = vec![];
     if crate::props::wants(opts, "attribute_product_2_rules") {
@@ -166,6 +271,9 @@ pub fn run(opts: &Opts) -> Vec<Report> {
     }
     if crate::props::wants(opts, "non_quiescing_families") {
         out.push(run_families(opts));
+    }
+    if crate::props::wants(opts, "call_after_failed_call") {
+        out.push(run_failed_calls(opts));
     }
     out
 }
@@ -188,6 +296,16 @@ pub fn replay(case: &serde_json::Value) -> crate::props::ReplayResult {
             }
         }
         return Ok(hist);
+    }
+    if case["sub"].as_str() == Some("call_after_failed_call") {
+        let i = case["case"].as_u64().unwrap_or(0) as usize;
+        let cases = failed_call_cases();
+        let (name, rules, mc, cb, grl) = &cases[i.min(cases.len() - 1)];
+        let hist = vec![case.to_string()];
+        return match run_failed_call_case(name, rules, *mc, *cb, *grl) {
+            Ok(_) => Ok(hist),
+            Err((c, d)) => Err((hist, c, d)),
+        };
     }
     c02::replay(case)
 }
